@@ -858,3 +858,139 @@ class RecordTargetModified(Kernel):
 
 
 KERNELS += [BindCurrentValue, BindSampled, RecordTargetModified]
+
+
+# ---------------------------------------------------------------- alternative.cpp bind_target_link_at (C13_r6_2)
+class HandleObj(Obj):
+    """TSOutputHandle: identity of one output POSITION = (producing output, storage type record, data address); the schema it is
+    read as is a further attribute that two different positions of one output may share"""
+    cls = "TSOutputHandle"
+
+    def __init__(self, name, out, st, data, schema):
+        Obj.__init__(self, name=name)
+        self.out, self.st, self.data, self.schema = out, st, data, schema
+
+    def m_same_as(self, I, args, n):
+        o = I.ctx.rv(args[0])
+        if not isinstance(o, HandleObj):
+            raise Gap("same_as(%r)" % (o,))
+        # base_view.h TSOutputHandle::same_as (one line): output, storage type and data address all equal
+        return z3.And(self.out == o.out, self.st == o.st, self.data == o.data)
+
+    def m_output(self, I, args, n):
+        return self.out
+
+    def m_schema(self, I, args, n):
+        return self.schema
+
+    def m_handle(self, I, args, n):
+        return self
+
+
+class LinkStore(Obj):
+    cls = "TSInputTargetLinkStorage"
+
+    def __init__(self, k):
+        Obj.__init__(self, name="link")
+        self.k = k
+
+    def m_bound(self, I, args, n):
+        return self.k.link_bound
+
+    def m_target_output(self, I, args, n):
+        return self.k.existing
+
+    def _bind(self, I, args, n, how):
+        ctx = I.ctx
+        g = self.k.g
+        ctx.write(Loc((g.oid, "binds")), ctx.store[(g.oid, "binds")] + 1)
+        ctx.write(Loc((g.oid, "how")), z3.IntVal(how))
+        out = ctx.rv(args[1])
+        ctx.write(Loc((g.oid, "bound_to_new")), z3.BoolVal(out is self.k.new))
+        ctx.write(Loc((g.oid, "bind_time")), ctx.rv(args[2]))
+        sch = ctx.rv(args[0])
+        ctx.write(Loc((g.oid, "bind_schema_ok")), z3.BoolVal(getattr(sch, "cls", None) == "TSValueTypeMetaData(target)"))
+        return VOID
+
+    def m_bind_sampled(self, I, args, n):
+        return self._bind(I, args, n, 1)
+
+    def m_bind_current_value(self, I, args, n):
+        return self._bind(I, args, n, 2)
+
+
+class BindTargetLinkAt(Kernel):
+    name = "alternative.cpp:bind_target_link_at"
+    tu = "src/hgraph/types/time_series/ts_output/alternative.cpp"
+    filter = "bind_target_link_at"
+    fn_name = "bind_target_link_at"
+    property_ids = ("C13",)
+    scope = {"lo": 0, "hi": 3}
+    title = ("bind_target_link_at: applying a reference (re)binds the consumer's link to the referenced position unless the link "
+             "already points at exactly that position (same output, same storage record, same data address)")
+
+    def setup(self, I):
+        ctx = I.ctx
+        g = Obj("ghost", "bg")
+        self.g = g
+        for nm, v in (("binds", z3.IntVal(0)), ("how", z3.IntVal(0)), ("bound_to_new", z3.BoolVal(False)), ("bind_time", z3.IntVal(-1)),
+                      ("bind_schema_ok", z3.BoolVal(False))):
+            ctx.store[(g.oid, nm)] = v
+        self.link_null, self.link_bound, self.schema_null = z3.Bool("link_storage_null"), z3.Bool("link_bound"), z3.Bool("target_schema_null")
+        self.kind = z3.Int("target_schema_kind")
+        e = [z3.Int(x) for x in ("existing_output", "existing_storage_type", "existing_data", "existing_schema")]
+        nw = [z3.Int(x) for x in ("new_output", "new_storage_type", "new_data", "new_schema")]
+        self.existing = HandleObj("existing_target", *e)
+        self.new = HandleObj("output", *nw)
+        # a position determines the schema it is read as (not conversely)
+        ctx.assume(z3.Implies(z3.And(e[0] == nw[0], e[1] == nw[1], e[2] == nw[2]), e[3] == nw[3]))
+        self.t = z3.Int("modified_time")
+        ctx.assume(self.t > 0)
+        self.target = Obj("TSDataView", "target")
+        self.link = LinkStore(self)
+        self.schema_obj = Obj("TSValueTypeMetaData(target)", "target_schema")
+        ctx.store[(self.schema_obj.oid, "kind")] = self.kind
+        return None, {"target": self.target, "output": self.new, "modified_time": self.t}
+
+    KINDS = {"TSS": 101, "TSD": 102}
+
+    def enum_const(self, I, ref):
+        nm = ref.get("name")
+        if nm in self.KINDS:
+            return z3.IntVal(self.KINDS[nm])
+        return z3.IntVal(200 + (hash(nm) % 50))
+
+    def function_handler(self, name, node, callee_node):
+        if name == "mutable_target_link_storage":
+            return lambda I, a, n: Ptr(self.link, self.link_null)
+        if name == "target_link_schema":
+            return lambda I, a, n: Ptr(self.schema_obj, self.schema_null)
+        return Kernel.function_handler(self, name, node, callee_node)
+
+    def same_position(self):
+        e, n = self.existing, self.new
+        return z3.And(e.out == n.out, e.st == n.st, e.data == n.data)
+
+    def post(self, I, ret):
+        ctx = I.ctx
+        g = self.g
+        dedup = z3.And(z3.Not(self.link_null), self.link_bound, self.same_position())
+        keyed = z3.Or(self.kind == self.KINDS["TSS"], self.kind == self.KINDS["TSD"])
+        ctx.oblige("ensures.rebind-skipped-iff-already-bound-to-exactly-that-position[C13 a retarget - also between two positions of one "
+                   "output read with the same schema - re-binds the consumer, which is then evaluated in that cycle and follows the new target]",
+                   ctx.store[(g.oid, "binds")] == z3.If(dedup, 0, 1), kind="post-normal")
+        ctx.oblige("ensures.bound-to-the-referenced-output-at-the-retarget-time-with-the-target's-schema[C13 sees the new target's value]",
+                   z3.Implies(z3.Not(dedup), z3.And(ctx.store[(g.oid, "bound_to_new")], ctx.store[(g.oid, "bind_time")] == self.t,
+                                                    ctx.store[(g.oid, "bind_schema_ok")])), kind="post-normal")
+        ctx.oblige("ensures.keyed-shapes-are-bound-sampled,others-sample-the-current-value[C13 delta of a freshly bound target]",
+                   z3.Implies(z3.Not(dedup), ctx.store[(g.oid, "how")] == z3.If(keyed, 1, 2)), kind="post-normal")
+
+    def post_exc(self, I, exc):
+        ctx = I.ctx
+        dedup = z3.And(z3.Not(self.link_null), self.link_bound, self.same_position())
+        ctx.oblige("raises.logic_error-iff-no-link-storage-or-no-schema", z3.And(
+            z3.BoolVal(exc.cls == "std::logic_error"), z3.Not(dedup), z3.Or(self.link_null, self.schema_null),
+            ctx.store[(self.g.oid, "binds")] == 0), kind="post-exceptional")
+
+
+KERNELS += [BindTargetLinkAt]
